@@ -487,10 +487,22 @@ async fn run_async(ctx: &mut Ctx, opts: Opts) {
             if !w.nodes[i].alive {
                 continue;
             }
-            let ex = w.exemptions(i);
+            let mut ex = w.exemptions(i);
+            // The premise of the clause ("every request has completed or failed and every challenge was
+            // answered or expired") is established per address from the wire: an outstanding request was
+            // transmitted or retransmitted, and an unexpired challenge was sent, within the last timeout
+            // period. An address the node still talked to within that period is not quiescent (an
+            // implementation may legitimately still be exchanging handshakes there) and is skipped.
+            let to = w.nodes[i].cfg.request_timeout_ms;
+            let recent: std::collections::BTreeSet<std::net::SocketAddr> = w.wire.iter().rev().take_while(|r| r.t_ms + to + 2 >= t_end).filter(|r| r.from == i).map(|r| r.dst).collect();
+            let before = ex.len();
+            ex.retain(|a, _| !recent.contains(a));
+            if ex.len() != before {
+                ctx.count("horizon_address_not_quiescent");
+            }
             ctx.count("quiescent_exemption_checks");
             if !ex.is_empty() && w.pending_events() == 0 {
-                ctx.fail("c13.exemption-leak", format!("n{i}: exemptions {ex:?} remain at quiescence (all requests terminal, all challenges expired, nothing in flight)"), &[]);
+                ctx.fail("c13.exemption-leak", format!("n{i}: exemptions {ex:?} remain at quiescence (all requests terminal, all challenges expired, nothing sent to these addresses for a full timeout period)"), &[]);
                 break;
             }
         }
